@@ -301,7 +301,18 @@ Fixpoint before_last_dot (s : string) : string :=
   | String c r => if has_dot r then String c (before_last_dot r)
                   else if Ascii.eqb c "." then EmptyString else String c (before_last_dot r)
   end.
+Fixpoint has_slash (s : string) : bool :=
+  match s with EmptyString => false | String c r => (Ascii.eqb c "/" || has_slash r)%bool end.
+(* fname[:fname.rfind('/')+1], fname[fname.rfind('/')+1:] *)
+Fixpoint split_dir (s : string) : string * string :=
+  match s with
+  | EmptyString => (EmptyString, EmptyString)
+  | String c r => if has_slash r then let '(d, b) := split_dir r in (String c d, b)
+                  else if Ascii.eqb c "/" then (String c EmptyString, r) else (EmptyString, s)
+  end.
+(* only the file name takes part: a '.' in a directory name is not an extension (fix C12b) *)
 Definition gen_filename (fname purpose ext : string) : string :=
-  (before_last_dot (remove_go ".pt.trace" 0 fname) ++ "_" ++ purpose ++ "." ++ ext)%string.
+  let '(d, b) := split_dir (remove_go ".pt.trace" 0 fname) in
+  (d ++ before_last_dot b ++ "_" ++ purpose ++ "." ++ ext)%string.
 Definition fname_val (c : string * string * string) : val :=
   let '(f, p, e) := c in VS (gen_filename f p e).
